@@ -214,7 +214,7 @@ func (r *mergeRun) zeroSurvivors() bool { return len(r.want.Docs) == 0 }
 func init() {
 	register(&explore.Prop{
 		ID: "C02", Level: levelMC, Explorer: "E1 input-space enumerator",
-		Rule: "every list of <=k segments (each a MIX batch of <=2 docs over K kinds, incl. the empty batch) x every deletion bitmap (nil, empty, every subset) x configurations (input chunk modes, input form built/loaded/previously merged, output mode); merged with the real merger, loaded, observed and compared with (a) the reference model and (b) New(survivors); MERGE-LARGE (cardinalities / document counts around 1024); MERGE-ALIAS (the same segment object twice in one list, [S,S] and [S,T,S], every pair of bitmaps); MERGE(2,3,2) under 8 norm tables of unusual float32 bit patterns; " +
+		Rule: "every list of <=k segments (each a MIX batch of <=2 docs over K kinds, incl. the empty batch) x every deletion bitmap (nil, empty, every subset) x configurations (input chunk modes, input form built/loaded/previously merged, output mode); merged with the real merger, loaded, observed and compared with (a) the reference model and (b) New(survivors); MERGE-LARGE (cardinalities / document counts around 1024); MERGE-ALIAS (the same segment object twice in one list, [S,S] and [S,T,S], every pair of bitmaps); MERGE(2,3,2) under 8 norm tables of unusual float32 bit patterns; MERGE-EXTREME (batches with extreme values: huge frequencies/location numbers, 70 000-byte terms and values, thousands of terms/locations/instances - alone, with a partner, twice); " +
 			"distinct = distinct (configuration, segment list, bitmaps); non-trivial = >=1 dropped doc, or two segments share a term, or field lists differ",
 		Assumptions: commonAssumptions, Budget: qBudget, Run: runC02,
 	})
@@ -289,6 +289,89 @@ func runC02(c *explore.Ctx) {
 	largeMerges(c, check)
 	aliasMerges(c, check)
 	normMerges(c, check)
+	extremeMerges(c, check)
+}
+
+// manualMerge builds a merge case from explicit batches.
+func manualMerge(name string, batches [][]model.Doc, drops [][]uint32, out uint32) (*mergeRun, error) {
+	r := &mergeRun{cfg: mergeCfg{Name: name, InModes: []uint32{1025}, Out: out}}
+	for i, b := range batches {
+		seg, err := build(b, 1025)
+		if err != nil {
+			return nil, fmt.Errorf("build input %d: %w", i, err)
+		}
+		r.batches = append(r.batches, b)
+		r.segs = append(r.segs, seg)
+		r.lsegs = append(r.lsegs, model.Build(b))
+		sp := gen.SegSpec{}
+		if drops[i] == nil {
+			r.drops = append(r.drops, nil)
+			r.dropSets = append(r.dropSets, nil)
+		} else {
+			r.drops = append(r.drops, bitmapOf(drops[i]...))
+			ds := map[uint64]bool{}
+			for _, d := range drops[i] {
+				ds[uint64(d)] = true
+			}
+			r.dropSets = append(r.dropSets, ds)
+			sp.DropForm, sp.Drops = 1, drops[i]
+		}
+		r.specs = append(r.specs, sp)
+	}
+	r.want, r.wantNums = model.Merge(r.lsegs, r.dropSets)
+	return r, nil
+}
+
+// extremeMerges: MERGE-EXTREME - every EXTREME batch merged alone with a deletion, and with a
+// small partner in both orders (re-encode path; 1-hit candidates; renumbering).
+func extremeMerges(c *explore.Ctx, check func(scope string, idx int64, r *mergeRun)) {
+	extremeMergesOpt(c, check, false)
+}
+
+// sumLen: normalise the reported field lengths to the sum of term frequencies (C16's contract).
+func extremeMergesOpt(c *explore.Ctx, check func(scope string, idx int64, r *mergeRun), sumLen bool) {
+	scope := "MERGE-EXTREME"
+	partner := []model.Doc{gen.MixDoc(2, "p", 0), gen.MixDoc(1, "p", 1)}
+	if sumLen {
+		model.SumFreqLen(partner)
+	}
+	var idx int64
+	for _, e := range gen.Extremes() {
+		if sumLen {
+			model.SumFreqLen(e.Batch)
+		}
+		type v struct {
+			name    string
+			batches [][]model.Doc
+			drops   [][]uint32
+		}
+		vs := []v{
+			{"alone-drop0", [][]model.Doc{e.Batch}, [][]uint32{{0}}},
+			{"alone-nodrop", [][]model.Doc{e.Batch}, [][]uint32{nil}},
+			{"with-partner", [][]model.Doc{e.Batch, partner}, [][]uint32{{1}, nil}},
+			{"partner-first", [][]model.Doc{partner, e.Batch}, [][]uint32{{0}, {}}},
+			{"twice", [][]model.Doc{e.Batch, e.Batch}, [][]uint32{nil, {0}}},
+		}
+		for _, x := range vs {
+			for _, out := range []uint32{1025, 2} {
+				my := idx
+				idx++
+				if !c.MineIdx(scope, my) || c.Expired() {
+					continue
+				}
+				c.Eval()
+				c.Nontrivial()
+				r, err := manualMerge(fmt.Sprintf("extreme %s %s", e.Name, x.name), x.batches, x.drops, out)
+				if err != nil {
+					c.Violate(scope, my, sigOf(c.Prop, "inputs", "error: "+err.Error()), err.Error(), e.Name)
+					continue
+				}
+				r.alias = true // ids repeat in the "twice" variant
+				r.run()
+				check(scope, my, r)
+			}
+		}
+	}
 }
 
 // normMerges: the MERGE(2,3,2) sweep under norms with unusual float32 bit patterns (the merger
